@@ -445,6 +445,33 @@ class Item:
             idx += 1
         raise ExtractionError("%s: loop #%d not found" % (self.name, ordinal))
 
+    def insert_at_body_start(self, text, why, fn_name=None):
+        """Insert ghost/proof text right after the opening brace of the fn body (no statement anchor needed)."""
+        toks, bi = self._body_open(fn_name)
+        p = toks[bi][2]
+        self.text = self.text[:p] + "\n" + text + "\n" + self.text[p:]
+        self.rewrites.append({"rule": "proof", "at": "body start", "what": why})
+        return self
+
+    STR_PREDICATES = ("starts_with", "ends_with", "contains", "is_empty", "eq_ignore_ascii_case", "is_ascii")
+
+    def shim_str_predicates(self):
+        """R5, generic: `recv.starts_with(arg)` (and the other boolean str predicates Verus has no specification
+        for) becomes `str_pred_starts_with(&recv, arg)`, an external function whose result is unconstrained.
+        Sound for proofs (both outcomes must satisfy the contract) and it keeps text that starts using such a
+        predicate inside the verifier's dialect instead of ending in UNDECIDED."""
+        n_total = 0
+        for pred in self.STR_PREDICATES:
+            pat = r"\b([A-Za-z_][A-Za-z0-9_]*(?:\.[A-Za-z_][A-Za-z0-9_]*)*)\.%s\(" % pred
+            self.text, n = re.subn(pat, lambda m: "str_pred_%s(&%s, " % (pred, m.group(1)), self.text)
+            # `.is_empty()` has no argument: fix the dangling ", )"
+            n_total += n
+        self.text = self.text.replace(", )", ")")
+        if n_total:
+            self.rewrites.append({"rule": "R5", "what": "%d boolean str predicates replaced by unconstrained external "
+                                  "functions str_pred_*" % n_total})
+        return self
+
     def insert_after(self, anchor, text, why):
         """Insert proof text (ghost code only) after the first occurrence of an anchor statement."""
         n = self.text.count(anchor)
